@@ -73,6 +73,10 @@ impl SlatepackArmor {
 		check_header(&header_bytes)?;
 		// Get the length of the header
 		let header_len = header_bytes.len() + 1;
+		// The header must be terminated by a period
+		if header_len > armor_bytes.len() {
+			return Err(Error::InvalidSlatepackData("Bad armor header".to_string()));
+		}
 		// Skip the length of the header to read for the payload until the next period
 		let payload_bytes = armor_bytes[header_len as usize..]
 			.iter()
@@ -83,6 +87,10 @@ impl SlatepackArmor {
 		let payload_len = payload_bytes.len();
 		// Get footer bytes and verify them
 		let consumed_bytes = header_len + payload_len + 1;
+		// The payload must be terminated by a period
+		if consumed_bytes > armor_bytes.len() {
+			return Err(Error::InvalidSlatepackData("Bad armor footer".to_string()));
+		}
 		let footer_bytes = armor_bytes[consumed_bytes as usize..]
 			.iter()
 			.take_while(|byte| **byte != b'.')
@@ -99,6 +107,10 @@ impl SlatepackArmor {
 		let base_decode = bs58::decode(&clean_payload)
 			.into_vec()
 			.map_err(|_| Error::SlatepackDeser("Bad bytes".into()))?;
+		// The payload must at least hold the 4 byte error check code
+		if base_decode.len() < 4 {
+			return Err(Error::SlatepackDeser("Bad bytes".into()));
+		}
 		let error_code = &base_decode[0..4];
 		let slatepack_bytes = &base_decode[4..];
 		// Make sure the error check code is valid for the slate data
